@@ -2,7 +2,7 @@
      cowHostList.add / remove                      (policies.go:62-116)
      roundRobinHostPolicy, dcAwareRR, rackAwareRR  (AddHost/RemoveHost/HostUp/HostDown/Pick, tier functions)
      roundRobbin                                   (policies.go:883-915, the layered generator)
-     tokenAwareHostPolicy.Pick                     (policies.go:581-691, the three-phase generator)
+     tokenAwareHostPolicy.Pick                     (the three-phase generator)
    and a labelled transition system over them (policy operations, host state changes, Pick, and
    single calls of the returned NextHost functions, interleaved in any order).
    Definitions only; proofs live in Proofs*.v.
@@ -132,15 +132,8 @@ Definition rr_pick (p : policy) : rr_iter * policy :=
   (mkRR (signed 64 c) (plists p) 0, mkPolicy (pk p) (plists p) c).
 
 (* ---- tokenAwareHostPolicy.Pick ---------------------------------------------------------------- *)
-(* tier of a replica as computed inside the generator.  A nil host (replicas = [nil] when the ring has
-   no tokens): roundRobin's IsLocal ignores its argument (tier 0, then IsUp() of nil is false);
-   dcAwareRR.IsLocal and rackAwareRR.HostTier call host.DataCenter() -> nil dereference. *)
-Definition ta_tier (k : pkind) (oh : option host) : option nat :=
-  match oh with
-  | Some h => Some (host_tier k h)
-  | None => match k with PRR => Some 0%nat | _ => None end
-  end.
-
+(* (as repaired: the second loop walks every tier, both replica loops skip a replica already offered,
+   and a ring without tokens makes Pick return the fallback's generator) *)
 (* maxTier: rackAwareRR is the only HostTierer (MaxHostTier() = 2); otherwise 1 *)
 Definition max_tier (k : pkind) : nat := match k with PRack _ _ => 2 | _ => 1 end.
 
@@ -148,57 +141,44 @@ Definition max_tier (k : pkind) : nat := match k with PRack _ _ => 2 | _ => 1 en
 Definition app_at (remote : list (list host)) (i : nat) (h : host) : list (list host) :=
   upd remote i (nth i remote [] ++ [h]).
 
-Inductive p1_res :=
-| P1Found (h : host) (rest : list (option host)) (remote : list (list host))
-| P1Done (remote : list (list host))
-| P1Panic (rest : list (option host)) (remote : list (list host)).
+Definition zmem (x : Z) (l : list Z) : bool := existsb (Z.eqb x) l.
 
-(* first loop: for i < len(replicas) *)
-Fixpoint ta_phase1 (k : pkind) (nlrf : bool) (up : Z -> bool) (reps : list (option host))
+Inductive p1_res :=
+| P1Found (h : host) (rest : list host) (remote : list (list host))
+| P1Done (remote : list (list host)).
+
+(* first loop: for i < len(replicas).  The tier of a replica is HostTier(h) for a HostTierer fallback,
+   else IsLocal(h) ? 0 : 1 - both are [host_tier]. *)
+Fixpoint ta_phase1 (k : pkind) (nlrf : bool) (up : Z -> bool) (used : list Z) (reps : list host)
                    (remote : list (list host)) : p1_res :=
   match reps with
   | [] => P1Done remote
-  | oh :: rest =>
-      match ta_tier k oh with
-      | None => P1Panic rest remote
-      | Some O =>
-          match oh with
-          | Some h => if up (hid h) then P1Found h rest remote else ta_phase1 k nlrf up rest remote
-          | None => ta_phase1 k nlrf up rest remote
-          end
-      | Some (S t) =>
-          match oh with
-          | Some h => ta_phase1 k nlrf up rest (if nlrf then app_at remote t h else remote)
-          | None => ta_phase1 k nlrf up rest remote
-          end
+  | h :: rest =>
+      match host_tier k h with
+      | O => if up (hid h) && negb (zmem (hid h) used) then P1Found h rest remote
+             else ta_phase1 k nlrf up used rest remote
+      | S t => ta_phase1 k nlrf up used rest (if nlrf then app_at remote t h else remote)
       end
   end.
 
 Inductive p2_res := P2Found (h : host) (rem : list (list host)) | P2Done (rem : list (list host)).
 
-(* second loop: for j < len(remote) && k < len(remote[j]).  The state (remote, j, k) is represented by
-   rem = remote[j][k:] :: remote[j+1:] (rem = [] when j = len(remote)); k is 0 whenever j has just been
-   incremented, so `k < len(remote[j])` fails exactly when the head of rem is empty: the loop then
-   ends without looking at the tiers behind it.
-   [p2_inner] walks the current tier [cur]; [next_tier] is what the loop does once `k >= len(remote[j])`
-   has made it move on (j++, k = 0), i.e. the loop run on [rest]. *)
-Fixpoint p2_inner (up : Z -> bool) (rest : list (list host)) (next_tier : p2_res) (cur : list host) : p2_res :=
+(* second loop: for j < len(remote) { if k >= len(remote[j]) { j++; k = 0; continue }; h := remote[j][k]; k++; ... }
+   The state (remote, j, k) is represented by rem = remote[j][k:] :: remote[j+1:] (rem = [] when
+   j = len(remote)).  [p2_inner] walks the current tier; [next_tier] is the loop run on the tiers behind it. *)
+Fixpoint p2_inner (up : Z -> bool) (used : list Z) (rest : list (list host)) (next_tier : p2_res)
+                  (cur : list host) : p2_res :=
   match cur with
-  | [] => P2Done ([] :: rest)
-  | h :: cur' =>
-      match cur' with
-      | [] => if up (hid h) then P2Found h rest else next_tier
-      | _ :: _ => if up (hid h) then P2Found h (cur' :: rest) else p2_inner up rest next_tier cur'
-      end
+  | [] => next_tier                                                  (* k >= len(remote[j]): j++, k = 0 *)
+  | h :: cur' => if up (hid h) && negb (zmem (hid h) used) then P2Found h (cur' :: rest)
+                 else p2_inner up used rest next_tier cur'
   end.
 
-Fixpoint ta_phase2 (up : Z -> bool) (rem : list (list host)) : p2_res :=
+Fixpoint ta_phase2 (up : Z -> bool) (used : list Z) (rem : list (list host)) : p2_res :=
   match rem with
   | [] => P2Done []
-  | cur :: rest => p2_inner up rest (ta_phase2 up rest) cur
+  | cur :: rest => p2_inner up used rest (ta_phase2 up used rest) cur
   end.
-
-Definition zmem (x : Z) (l : list Z) : bool := existsb (Z.eqb x) l.
 
 (* third loop: for fallbackHost := fallbackIter(); fallbackHost != nil; ... { if !used[...] {...} } *)
 Fixpoint ta_phase3 (up : Z -> bool) (used : list Z) (fb : rr_iter) (fuel : nat) : outcome * rr_iter * list Z :=
@@ -215,17 +195,16 @@ Definition rr_size (it : rr_iter) : nat := length (concat (ri_layers it)).
 
 (* closure state of the token-aware generator: replicas[i:], remote (phase 1) / the phase-2 remainder,
    the `used` set (keys: host pointers), the lazily created fallback generator *)
-Record ta_iter := mkTA { ti_reps : list (option host); ti_remote : list (list host);
+Record ta_iter := mkTA { ti_reps : list host; ti_remote : list (list host);
                          ti_used : list Z; ti_fb : option rr_iter }.
 
 (* one call of the returned function; the fallback policy is read (and its counter advanced) only
    when the fallback generator is created *)
 Definition ta_next (nlrf : bool) (up : Z -> bool) (p : policy) (it : ta_iter) : outcome * ta_iter * policy :=
-  match ta_phase1 (pk p) nlrf up (ti_reps it) (ti_remote it) with
-  | P1Panic rest remote => (Panic, mkTA rest remote (ti_used it) (ti_fb it), p)
+  match ta_phase1 (pk p) nlrf up (ti_used it) (ti_reps it) (ti_remote it) with
   | P1Found h rest remote => (Offer h, mkTA rest remote (hid h :: ti_used it) (ti_fb it), p)
   | P1Done remote =>
-      match (if nlrf then ta_phase2 up remote else P2Done remote) with
+      match (if nlrf then ta_phase2 up (ti_used it) remote else P2Done remote) with
       | P2Found h rem => (Offer h, mkTA [] rem (hid h :: ti_used it) (ti_fb it), p)
       | P2Done rem =>
           let '(fb, p') := match ti_fb it with Some fb => (fb, p) | None => rr_pick p end in
@@ -241,13 +220,15 @@ Inductive qinfo :=
        (primary : option host)                (* tokenRing.GetHostForToken(token), None = nil (ring without tokens) *)
        (order : list host).                   (* the order of ht after shuffleHosts (= ht without ShuffleReplicas) *)
 
-Definition ta_replicas (ht : option (list host)) (primary : option host) (order : list host) : list (option host) :=
-  match ht with
-  | None => [primary]
-  | Some _ => map Some order
+(* the replica list the generator walks; None: no routing information, Pick returns the fallback's generator *)
+Definition ta_replicas (ht : option (list host)) (primary : option host) (order : list host) : option (list host) :=
+  match ht, primary with
+  | Some _, _ => Some order
+  | None, Some h => Some [h]
+  | None, None => None
   end.
 
-Definition ta_pick (k : pkind) (nlrf : bool) (reps : list (option host)) : ta_iter :=
+Definition ta_pick (k : pkind) (nlrf : bool) (reps : list host) : ta_iter :=
   mkTA reps (if nlrf then repeat [] (max_tier k) else []) [] None.
 
 (* ---- the system: one policy, host states, any number of live generators ---------------------- *)
@@ -304,8 +285,13 @@ Definition step (c : cfg) (s : sys) (l : label) : option (sys * option outcome) 
       if pick_ok c q then
         match q, c_ta c with
         | QKey ht primary order, true =>
-            Some (mkSys (s_pol s) (s_up s)
-                        ((n, ITA (ta_pick (c_kind c) (c_nlrf c) (ta_replicas ht primary order))) :: s_iters s), None)
+            match ta_replicas ht primary order with
+            | Some reps =>
+                Some (mkSys (s_pol s) (s_up s) ((n, ITA (ta_pick (c_kind c) (c_nlrf c) reps)) :: s_iters s), None)
+            | None =>
+                let '(r, p') := rr_pick (s_pol s) in
+                Some (mkSys p' (s_up s) ((n, IRR r) :: s_iters s), None)
+            end
         | _, _ =>
             let '(r, p') := rr_pick (s_pol s) in
             Some (mkSys p' (s_up s) ((n, IRR r) :: s_iters s), None)
